@@ -17,7 +17,7 @@ pub fn run(run: &mut Run) {
         nothing; non-trivial = >= 2 components; distinct = (#components, overlap?, timing heterogeneity, phase)"
         .into();
     run.min_sigs = 30;
-    let n: u64 = if run.thorough() { 1_000_000 } else { 40_000 };
+    let n: u64 = if run.thorough() { 1_000_000 } else { 160_000 };
     let seed = run.seed;
     let rc = run.replay_case();
     run.parallel(|w, nw, acc| {
